@@ -270,6 +270,18 @@ impl Peer {
             return Err(Error::from(ErrorKind::InvalidInput));
         }
 
+        if response.public_key == wallet.public_key {
+            // nobody else can sign with our key: this is a signature we produced ourselves (we
+            // answer every challenge we are sent), handed back to us on this connection
+            warn!(
+                "peer : {:?} sent a handshake response carrying our own key. rejecting the reflected signature",
+                self.index
+            );
+            self.mark_as_disconnected(current_time);
+            io_handler.disconnect_from_peer(self.index).await?;
+            return Err(Error::from(ErrorKind::InvalidInput));
+        }
+
         if self.public_key.is_some() && response.public_key != self.public_key.unwrap() {
             warn!(
                 "peer : {:?} is already known under the key : {:?} but sent a handshake response for the key : {:?}",
